@@ -512,18 +512,18 @@ def Psbt.parse (ko : KeyOps) (sha : Bytes → Bytes) (compress : Nat) (b : Bytes
         match parseUnknowns ko isV2 g0 unk with
         | none => none
         | some g =>
-          match g.nin, g.nout with
-          | some nin, some nout =>
-            match readIns ko sha compress tx nin 0 r1 with
+          -- a version-2 PSBT without a count field has no scopes of that kind (`self.inputs = []`)
+          let nin := g.nin.getD 0
+          let nout := g.nout.getD 0
+          match readIns ko sha compress tx nin 0 r1 with
+          | none => none
+          | some (ins, r2) =>
+            match readOuts ko tx nout 0 r2 with
             | none => none
-            | some (ins, r2) =>
-              match readOuts ko tx nout 0 r2 with
-              | none => none
-              | some (outs, r3) =>
-                if !r3.isEmpty then none else
-                some { version := ver, txVersion := g.txVersion, locktime := g.locktime, xpubs := g.xpubs,
-                       unknown := g.unknown, inputs := ins, outputs := outs }
-          | _, _ => none
+            | some (outs, r3) =>
+              if !r3.isEmpty then none else
+              some { version := ver, txVersion := g.txVersion, locktime := g.locktime, xpubs := g.xpubs,
+                     unknown := g.unknown, inputs := ins, outputs := outs }
 
 /-- the global scope `PSBT.write_to` emits -/
 def Psbt.globalPairs (p : Psbt) : Option (List KV) :=
